@@ -134,6 +134,60 @@ let () =
             | "replay" -> show (replay hs is_checkpoint (fun () -> true) k idx st ())
             | c -> failwith ("command " ^ c) in
           Printf.printf "%s out=%s\n" id o
+        | "fmt" ->
+          (match next () with
+           | "T" ->
+             let f = (match next () with
+               | "atlas" -> FAtlas | "golang-migrate" -> FGolangMigrate | "goose" -> FGoose
+               | "flyway" -> FFlyway | "liquibase" -> FLiquibase | "dbmate" -> FDBMate
+               | s -> failwith ("format " ^ s)) in
+             let cli = next_int () = 1 in
+             let n = next_int () in
+             let t = Stdlib.List.init n (fun _ -> ()) |> Stdlib.List.map (fun () ->
+               let p = String.split_on_char '/' (next ()) |> Stdlib.List.map (fun h -> bytes_of_string (unhex h)) in
+               let k = next () in
+               (p, if k = "D" then KDir else KFile (bytes_of_string (unhex (String.sub k 1 (String.length k - 1)))))) in
+             let show_tv = function TV v -> show_v v | TVErr -> "err" in
+             let files, hf = match format_files f t with
+               | FOk fs -> show_names fs, hexb (marshal hs (newhash hs fs))
+               | FErr -> "err", "-" in
+             let v = validate_tree hs f t in
+             let w = match write_sum_tree hs f t with Some t' -> show_tv (validate_tree hs f t') | None -> "err" in
+             let arc, uf, ua = match archive_tree f t with
+               | None -> "err", "-", "-"
+               | Some a ->
+                 let st = unarchive a in
+                 (match a with [] -> "-" | _ -> String.concat "," (Stdlib.List.map (fun (n, c) -> hexb n ^ ":" ^ hexb c) a)),
+                 show_names (files_of st), show_v (validate_store hs st) in
+             Printf.printf "%s files=%s hf=%s v=%s w=%s arc=%s uf=%s ua=%s\n" id files hf (show_tv v) w arc uf ua;
+             if cli then Printf.printf "%s cli=%s\n" id (match v with TV VOk -> "ok" | _ -> "fail")
+           | "K" ->
+             let st = next_files () in
+             let bits = next () in
+             let cks = Stdlib.List.filteri (fun i _ -> bits <> "-" && bits.[i] = '1') st |> Stdlib.List.map fst in
+             let is_ck (n, _) = Stdlib.List.mem n cks in
+             let fs = files_of st in
+             Printf.printf "%s cks=%s from=%s\n" id (show_names (checkpoint_files is_ck fs))
+               (match files_from_last_checkpoint is_ck fs with Some l -> show_names l | None -> "notfound")
+           | "U" ->
+             (* <id> U <parse 0|1> <scheme> <fmt: ~ | hex> <flag> <isdir 0|1> <tree> *)
+             let parse_ok = next_int () = 1 in
+             let scheme = next_bytes () in
+             let fmt = (match next () with "~" -> None | h -> Some (bytes_of_string (unhex h))) in
+             let flag = next_bytes () in
+             let is_dir = next_int () = 1 in
+             let n = next_int () in
+             let t = Stdlib.List.init n (fun _ -> ()) |> Stdlib.List.map (fun () ->
+               let p = String.split_on_char '/' (next ()) |> Stdlib.List.map (fun h -> bytes_of_string (unhex h)) in
+               let k = next () in
+               (p, if k = "D" then KDir else KFile (bytes_of_string (unhex (String.sub k 1 (String.length k - 1)))))) in
+             Printf.printf "%s out=%s\n" id (match check_dir_url hs parse_ok scheme fmt flag is_dir t with
+               | PErrParse -> "parse" | PErrOpen -> "openerr" | PErrNotExist -> "notexist" | PCloud -> "cloud"
+               | PValidated (TV VOk) -> "ok"
+               | PValidated (TV (VChecksum _)) -> "cs"
+               | PValidated (TV VNotFound) -> "notfound"
+               | PValidated _ -> "other")
+           | k -> failwith ("fmt case " ^ k))
         | m -> failwith ("mode " ^ m)
       end
     done
